@@ -2,6 +2,7 @@ package wm
 
 import (
 	"fmt"
+	"os"
 	"time"
 
 	"verifmc/dev"
@@ -53,7 +54,11 @@ func (c cfg) ops() []Op {
 func build(sh Shared, ops []Op, h []uint8) (*World, string, bool) {
 	w := NewWorld(sh)
 	for i, x := range h {
-		if f := w.Apply(ops[x]); f != "" {
+		f := w.Apply(ops[x])
+		if rt.Replay != nil && os.Getenv("VERIF_TRACE") != "" {
+			fmt.Printf("  %-34s %s | store %d keys\n", ops[x], dumpTrie(w.T), len(w.S.Keys()))
+		}
+		if f != "" {
 			return w, f, i != len(h)-1
 		}
 	}
